@@ -15,6 +15,7 @@ RULE = (
     "routine over all paths, with equal routine tables; (c) M(compile(text)) == M(x) as the derived claim. SsbScript "
     "fallback outputs are counted and left to C06. Non-trivial = x has >= 1 conditional op and the output is structured "
     "ExplorerScript; distinct by content hash."
+    ' Strata of the routine-set generator also include a routine nested 10-22 blocks deep (4 %) and one nested, or chained, 60-240 blocks deep (0.3 %). Calls into the code under test run with the recursion limit the package itself configures (vf.cut.cut_stack); a second settings object with other constant names is built before every decompilation.'
 )
 ASSUMPTIONS = [
     "reference semantics S / table of DESIGN.md Appendix A; dungeon-mode numbers 0..3 equal their configured constants",
